@@ -11,7 +11,7 @@ from __future__ import annotations
 
 from ..common import Run, main_wrapper, parse_args
 from .. import tlc
-from . import pitchrec, flat
+from . import pitchrec, flat, docs, docprops as dp
 
 
 def describe(r):
@@ -45,13 +45,24 @@ def main():
     run.rule = ('pitch level exhaustive: 7 clefs x {none,v,vv,^,^^} x 7 letters x accidentals -2..2 x octaves 0..8; document level: '
                 'generated documents with clef changes, chords and splits exported in akern/aekern; non-trivial = records under a '
                 'non-G2 clef or an octave-marked clef, and documents with >= 2 different clefs in force')
+    if a.replay_case and 'seed' in a.replay_case['case']:
+        run.add_tlc(tlc.run_tlc('MC_PitchAgn', workers=4, timeout=600))
+        docs.validate_sessions(run, [dp.sess_c10(a.replay_case['case']['seed'], plain_acc=False)])
+        return run.finish()
     pitch_level(run, a)
-    try:
-        from . import docs
-    except ImportError:
-        docs = None
-    if docs is not None and hasattr(docs, 'c10_document_level'):
-        docs.c10_document_level(run, a)
+    # document level: akern / aekern exports of documents with clef changes, chords and splits
+    n = 150 if a.tier == 'quick' else 3000
+    sess = docs.build_sessions(dp.sess_c10, [a.seed * 1000003 + i for i in range(n)], plain_acc=False)
+    docs.selftest_session(next(s for s in sess if len(s['log']) > 10))
+    docs.validate_sessions(run, sess)
+    run.evaluations += sum(1 for s in sess for e in s['log'] if e['ev'] == 'call')
+    run.note('document_level_sessions', n)
+    for s in sess:
+        if 'clef-change' in s['tags']:
+            run.nontrivial.add(s['text'])
+    s = next((s for s in sess if 'clef-change' in s['tags'] and 'split' in s['tags']), sess[0])
+    run.sample({'text': s['text'][:500], 'tags': s['tags'],
+                'akern': next((docs.describe_event(e)[:400] for e in s['log'] if e['ev'] == 'call' and e.get('op') == 'dumps' and e['args']['enc'] == 'akern'), None)})
     run.exhaustive = False
     return run.finish()
 
